@@ -201,7 +201,10 @@ class DistributedRateLimiter(Entity):
 
     def _get_window_id(self, now: Instant) -> int:
         """Calculate the window ID for the given time."""
-        return int(now.to_seconds() // self._window_size)
+        # Integer nanoseconds: float floor-division books an arrival that falls exactly
+        # on a window boundary (e.g. t=0.3 s, window 0.1 s) into the previous window.
+        window_ns = max(1, round(self._window_size * 1_000_000_000))
+        return now.nanoseconds // window_ns
 
     def _get_counter_key(self, window_id: int) -> str:
         """Generate the key for storing the window counter."""
